@@ -100,6 +100,26 @@ def respond (line : String) : String :=
          let e := match fin with | .clean => "clean" | .error _ => "err"
          s!"items ({vstr.drop 1}) end {e}")
     | _, _, _, _, _, _ => "bad-request"
+  | [.atom "rabin", b] => match atomBytes? b with
+    | some b => hex (rabinDigest b) | none => "bad-request"
+  | [.atom "sohdr", pcf] => match atomBytes? pcf with
+    | some p => hex (soHeader p) | none => "bad-request"
+  | [.atom "somsg", pcf, names, schema, value] =>
+    match atomBytes? pcf, parseNames names, parseSchema schema, parseValue value with
+    | some p, some env, some s, some v =>
+      (match encode env bigFuel s v with
+       | .ok e => (match (SoWriter.write { buffer := soHeader p } (some e) true) with
+          | (_, msg, some _) => s!"ok {hex msg}"
+          | _ => "err")
+       | .error _ => "err")
+    | _, _, _, _ => "bad-request"
+  | [.atom "sord", pcf, lim, szv, sze, names, schema, bytes] =>
+    match atomBytes? pcf, atomNat? lim, atomNat? szv, atomNat? sze, parseNames names, parseSchema schema, atomBytes? bytes with
+    | some p, some lim, some szv, some sze, some env, some s, some b =>
+      (match soRead { lim := lim, szValue := szv, szEntry := sze } env bigFuel s (soHeader p) b with
+       | .ok (v, r) => s!"ok {showValue v} {r.length}"
+       | .error e => s!"err {e}")
+    | _, _, _, _, _, _, _ => "bad-request"
   | [.atom "wrcheck", bsz, .list fmeta, marker, .list ops, implFile, implResS] =>
     let implRes : List Sexp := match implResS with | .list l => l | _ => []
     match atomNat? bsz, atomBytes? marker, atomBytes? implFile with
